@@ -18,6 +18,12 @@
     nilsimsa <target> <data>                                      32-byte digest                 (model, spec)
     nilsimsa.tran <target>                                        the 256-entry table            (model, spec)
     nilsimsa.seq <target> | <a> | <b> …                           update(a).update(b)….digest()  (model, spec of a‖b‖…)
+    nilsimsa.seqs <t0>,<t1>,… | <k> new | <k> u <hex> | <k> d | <k> r | <k> c <hex> | …
+                                                                  SEVERAL objects (targets t_k), each used for several messages:
+                                                                  new = Nilsimsa(t_k), u = update, d = digest(), r = reset(), c = __call__;
+                                                                  per step `-` (new, r), `n<count>` (u), the digest (d, c);
+                                                                  spec: every digest from the bytes fed to THAT object since its last
+                                                                  new / d / r / c
     nilsimsa.dist <d1> <d2>                                       Bits(d1).hd(d2) | ERR          (model, spec)
 
   `lcap` is instantiated with Lean's `Float.log` (IEEE double, libm) — the only place floats occur.
@@ -27,6 +33,7 @@ import Model.Tlsh
 import Model.Nilsimsa
 import Spec.Tlsh
 import Spec.Nilsimsa
+import Model.Multi
 namespace Driver.LshD
 open Model Driver
 
@@ -115,6 +122,45 @@ def scanSpec (cfg : Tlsh.Cfg) (q3 : Nat) (mode : String) : String :=
     match Spec.Tlsh.encode lcapF cfg.buckets (scanBuckets cfg.buckets q1 q2 q3) (List.replicate cfg.chklen 0) 256 false with
     | some d => hex2 (d.getD (cfg.chklen + 1) 0)
     | none => "--")
+
+/-! several Nilsimsa objects, several messages each (`nilsimsa.seqs`) -/
+
+def parseNOp? : List String → Option Nilsimsa.Op
+  | ["new"] => some .new
+  | ["u", x] => (parseBytes? x).map .u
+  | ["d"] => some .d
+  | ["r"] => some .r
+  | ["c", x] => (parseBytes? x).map .c
+  | _ => none
+
+def parseNStep? (nobj : Nat) : List String → Option (Nat × Nilsimsa.Op)
+  | k :: rest => do
+      let k ← parseNat? k; let o ← parseNOp? rest
+      if k < nobj then pure (k, o) else none
+  | _ => none
+
+/-- slot k: `none` before `<k> new` (a step on it is not a line of the protocol) -/
+def nStep (trans : List (List Nat)) (k : Nat) (o : Option Nilsimsa.St) (op : Nilsimsa.Op) : Option Nilsimsa.St × String :=
+  match op, o with
+  | .new, _ => (some Nilsimsa.St.init, "-")
+  | _, none => (none, "?")
+  | op, some s =>
+    let (s', r) := Nilsimsa.stepOp (trans.getD k []) s op
+    (some s', match op, r with
+      | .u _, _ => s!"n{s'.count}"
+      | _, some d => fmtBytes d
+      | _, none => "-")
+
+/-- the specification knows byte strings only: the bytes fed to the object since its last new / digest / reset / call -/
+def nSpec (targets : List Nat) (k : Nat) (o : Option (List Nat)) (op : Nilsimsa.Op) : Option (List Nat) × String :=
+  let t := targets.getD k 53
+  match op, o with
+  | .new, _ => (some [], "-")
+  | _, none => (none, "?")
+  | .u data, some m => (some (m ++ data), s!"n{(m ++ data).length}")
+  | .d, some m => (some [], fmtBytes (Spec.Nilsimsa.nilsimsa t m))
+  | .r, some _ => (some [], "-")
+  | .c data, some _ => (some [], fmtBytes (Spec.Nilsimsa.nilsimsa t data))
 
 def handle : Handler := fun op args =>
   match op, args with
@@ -215,6 +261,13 @@ def handle : Handler := fun op args =>
         | [x] => parseBytes? x
         | _ => none
       pure (fmtBytes (Nilsimsa.nilsimsaSeq t pieces), fmtBytes (Spec.Nilsimsa.nilsimsa t pieces.flatten))
+  | "nilsimsa.seqs", ts :: "|" :: rest => do
+      let targets ← (ts.splitOn ",").mapM parseNat?
+      let steps ← (splitBar rest).mapM (parseNStep? targets.length)
+      let trans := targets.map Nilsimsa.maketran
+      let m := (Model.Multi.run (nStep trans) (List.replicate targets.length none) steps).2.map (·.2)
+      let sp := (Model.Multi.run (nSpec targets) (List.replicate targets.length none) steps).2.map (·.2)
+      pure (";".intercalate m, ";".intercalate sp)
   | "nilsimsa.dist", [a, b] => do
       let a ← parseBytes? a; let b ← parseBytes? b
       pure (fmtE toString (Nilsimsa.distance a b),
